@@ -383,3 +383,44 @@ def correspond_windows(ctx, name, R, host, wmetas, res):
     for b in bad[:6]:
         key, evs, _ = wmetas[idx[b]]
         ctx.broken.append(('correspondence', {'key': key, 'window': evs[:12], 'impl': res[idx[b]]}))
+
+
+def overlap_pipeline(ctx, R, pairs, why):
+    """through the public API: two calls of one thread whose intervals overlap without nesting (START A, START B, END A,
+    END B), nest (A around B) or follow a START whose END was lost: each call renders exactly like its own bare
+    [START, END] pair - its arguments from its START, its result from its END"""
+    from ..harness import dumps as D
+    rng = ctx.rng
+    reqs, info = [], []
+
+    def dump(evs):
+        recs = [D.record(j + 1, ws, 7, c | q) for j, (c, q, ws) in enumerate(evs)]
+        return {'file': D.build_v2([(7, 1, b'p')], 0, recs).hex(), 'cfg': {'color': False}, 'calls': ['traces']}
+    for ka, kb in pairs:
+        ca, cb = R.code_of[ka], R.code_of[kb]
+        fa = in_domain_first(R, ka, rng, flags_in_domain=True)
+        fb = in_domain_first(R, kb, rng, flags_in_domain=True)
+        la, lb = [5, 11, 0, 0], [0, 22, 0, 0]
+        SA, EA, SB, EB = (ca, 1, fa), (ca, 2, la), (cb, 1, fb), (cb, 2, lb)
+        for name, evs in (('bare-a', [SA, EA]), ('bare-b', [SB, EB]), ('overlap', [SA, SB, EA, EB]), ('nested', [SA, SB, EB, EA]),
+                          ('stale-then-overlap', [SB, SA, SB, EA, EB])):
+            reqs.append(dump(evs))
+            info.append((ka, kb, name, evs))
+    res = vlib.run_impl('run_api.py', {'cases': reqs}, timeout=3000)['results']
+    ctx.evaluations += len(reqs)
+    bare = {}
+    for (ka, kb, name, evs), calls in zip(info, res):
+        c = calls[0]
+        ta = [it[4] for it in c['items'] if it[6] == R.code_of[ka]]
+        tb = [it[4] for it in c['items'] if it[6] == R.code_of[kb]]
+        if name == 'bare-a':
+            bare[(ka, kb, 'a')] = ta
+            continue
+        if name == 'bare-b':
+            bare[(ka, kb, 'b')] = tb
+            continue
+        ctx.count('overlap:' + name)
+        if c['err'] or ta != bare[(ka, kb, 'a')] or tb != bare[(ka, kb, 'b')]:
+            ctx.failing.append({'input': {'calls': [ka, kb], 'shape': name, 'events': [[c0, q, ws] for c0, q, ws in evs]},
+                                'expected': {ka: bare[(ka, kb, 'a')], kb: bare[(ka, kb, 'b')]}, 'actual': {'err': c['err'], ka: ta, kb: tb},
+                                'why': why})
